@@ -4,6 +4,7 @@ from __future__ import annotations
 
 import itertools
 import math
+import pickle
 from concurrent.futures import Executor, Future, ProcessPoolExecutor, ThreadPoolExecutor
 
 PROP = "C16"
@@ -29,6 +30,12 @@ THEOREMS = [
     "C16_statement_repaired",
     "C16_statement_partial",
     "C16_pinned_witness",
+    "C16_graph_wf",
+    "C16_schedule_independent",
+    "C16_schedule_pair",
+    "C16_roundtrip",
+    "C16_roundtrip_unchanged",
+    "C16_midrun_copy",
 ]
 RULE = (
     "real for-nodes made by for_node / Cls.for_node / node.iter / node.zip / as a workflow child fed through data "
@@ -114,6 +121,7 @@ class _Idle:
         self.sched = []
         self.empty_idles = 0
         self.points = 0
+        self.before = None
 
     def __call__(self, _dt=None):
         if self.ctl is None or not self.ctl.jobs:
@@ -121,6 +129,9 @@ class _Idle:
             if self.empty_idles > 200:
                 raise Livelock("idle point reached 200 times with no job outstanding")
             return
+        if self.before is not None:
+            cb, self.before = self.before, None
+            cb()  # (once) e.g. pickle the loop node while its bodies are out
         self.points += 1
         k = self.sched.pop(0) if self.sched else 0
         self.ctl.complete(k % len(self.ctl.jobs))
@@ -466,6 +477,40 @@ def gen_cases(rng, tier):
         yield _mk_case(rng, "B12", tuple(roles), rng.random() < 0.6, colmap, True, "for_node",
                        rng.random() < 0.2, lens_seq, bc_list_p=0.0)
 
+    # 5e. pickling: round trips of the loop node at rest (in memory / through a save file) and copies restored
+    #     from a pickle taken WHILE the bodies of a run are out; the history continues on the copy
+    for i in range(120 if quick else 1200):
+        body = rng.choice(["B4", "B4", "B3", "BC"])
+        inputs = BODIES[body]["inputs"]
+        roles = rng.choice(list(_splits(inputs)))
+        iter_on = [k for k, r in zip(inputs, roles) if r == "i"]
+        zip_on = [k for k, r in zip(inputs, roles) if r == "z"]
+        cms = [c for c in _colmaps(body, iter_on, zip_on) if _columns_distinct(body, iter_on, zip_on, c)]
+        n_runs = rng.choice([2, 3, 3, 4])
+        bad = i % 3 == 2   # some histories with empty lists / late inputs (round trips after refused and failed runs)
+        lens_seq = []
+        for _r in range(n_runs):
+            lens = {k: rng.randint(1, 3) for k in iter_on + zip_on}
+            if bad and rng.random() < 0.4:
+                lens[rng.choice(iter_on + zip_on)] = 0
+            lens_seq.append(lens)
+            if rng.random() < 0.2:
+                lens_seq.append(dict(lens))
+        lens_seq = lens_seq[:4]
+        executor = (not bad) and rng.random() < 0.6
+        case = _mk_case(rng, body, roles, rng.random() < 0.5, rng.choice(cms), rng.random() < 0.8,
+                        rng.choice(["for_node", "cls"]), executor, lens_seq, unset_p=0.3 if bad else 0.0)
+        for run in case["runs"]:
+            run.pop("exec", None)
+            r = rng.random()
+            if executor and r < 0.45:
+                run["pickle"] = "mid"
+            elif r < 0.8:
+                run["pickle"] = "after"
+            elif r < 0.9:
+                run["pickle"] = "file"
+        yield case
+
     # 5b. body nodes on REAL executors (threads, processes): the completion order is whatever it is
     for i in range(24 if quick else 160):
         body = rng.choice(["B4", "B3"])
@@ -609,6 +654,18 @@ def corpus():
     yield {"kind": "for", "body": "B4", "iter": ["a"], "zip": ["b"], "df": True, "colmap": None, "use_cache": True,
            "entry": "wf", "executor": False, "init": {"a": ["a0", "a1"], "b": ["b0", "b1", "b2"], "c": "C"},
            "runs": [{"set": {}, "how": "call"}, {"set": {"a": ["z"]}, "how": "call"}]}
+    # pickling: at rest, through a file, mid-run (history continues on the copy), after a failed run
+    yield {"kind": "for", "body": "B4", "iter": ["a"], "zip": ["b"], "df": True, "colmap": {"o": "O"}, "use_cache": True,
+           "entry": "for_node", "executor": True, "init": {"a": ["a0", "a1"], "b": ["b0", "b1", "b2"], "c": "C"},
+           "runs": [{"set": {}, "how": "call", "sched": [1, 0], "pickle": "after"},
+                    {"set": {}, "how": "call", "sched": [], "pickle": "mid"},
+                    {"set": {"a": ["x"]}, "how": "call", "sched": [2, 0, 0], "pickle": "mid"},
+                    {"set": {}, "how": "call", "sched": [0, 0, 0], "pickle": "file"},
+                    {"set": {"b": ["y", "z"]}, "how": "setrun", "sched": [1, 0]}]}
+    yield {"kind": "for", "body": "B3", "iter": ["a"], "zip": ["b"], "df": False, "colmap": None, "use_cache": True,
+           "entry": "cls", "executor": False, "init": {"a": [], "b": ["b0", "b1"], "c": "C"},
+           "runs": [{"set": {}, "how": "call", "pickle": "after"}, {"set": {"a": ["a0", "a1"]}, "how": "call", "pickle": "file"},
+                    {"set": {}, "how": "call"}, {"set": {"b": ["q"]}, "how": "assign"}]}
     yield {"kind": "maps", "data": {"a": 2, "b": 0, "c": 3}, "nested": ["a", "b"], "zipped": ["c"]}
     yield {"kind": "maps", "data": {"a": 2, "c": 3}, "nested": ["a", "a"], "zipped": ["c", "a"]}
     yield {"kind": "maps", "data": {"a": 2}, "nested": None, "zipped": None}
@@ -681,6 +738,36 @@ def _outs_view(df_form, get):
     return "lists " + " ".join(parts), {"form": "lists", "labels": list(labels), "columns": struct}
 
 
+def _pickle_mode(case, run):
+    """which round trip follows / accompanies this run (None: none)"""
+    how = run.get("pickle")
+    if not how or case["entry"] in ("iter", "zip", "wf"):
+        return None
+    if how == "mid":
+        return "mid" if (case["executor"] is True and run.get("exec", True)) else None
+    return how
+
+
+def _wire_view(f, in_labels):
+    """every non-input child with the owner of the first connection of each of its input channels"""
+    parts = []
+    for c in f:
+        if c.label in in_labels:
+            continue
+        ups = []
+        for ch in c.inputs:
+            ups.append(_child_name(f, ch.connections[0].owner, in_labels) if ch.connections else "")
+        parts.append(_child_name(f, c, in_labels) + "[" + ",".join(ups) + "]")
+    return "wire " + " ".join(parts)
+
+
+def _state_lines(case, f):
+    line, _ = _outs_view(case["df"], (lambda lab: f.outputs.df.value) if case["df"] else
+                         (lambda _l: (list(f.outputs.labels), f.outputs.to_value_dict())))
+    in_labels = list(f.inputs.labels)
+    return [line, "ch " + " ".join(_child_name(f, c, in_labels) for c in f)]
+
+
 def _run_for(case):
     import pyiron_workflow.nodes.composite as composite
     from pyiron_workflow.nodes.for_loop import for_node
@@ -749,6 +836,9 @@ def _run_for(case):
             if f is not None and body_exec is not None:
                 f.body_node_executor = body_exec if run.get("exec", True) else None
             calls0 = len(nodes_c16.CALLS)
+            snap = {}
+            if _pickle_mode(case, run) == "mid":
+                idle.before = (lambda node=f: snap.__setitem__("p", pickle.dumps(node)))
             sets = {k: (list(v) if isinstance(v, list) else v) for k, v in run["set"].items()}
             res, ret, err_text = "ok", None, ""
             try:
@@ -815,6 +905,37 @@ def _run_for(case):
             obs.append(line)
             if children is not None:
                 obs.append("ch " + " ".join(children))
+                if case["df"] and _columns_distinct(case["body"], case["iter"], case["zip"], case["colmap"]):
+                    obs.append(_wire_view(f, in_labels))
+            idle.before = None
+            how_p = _pickle_mode(case, run)
+            if how_p:
+                stats["pickle:" + how_p] = stats.get("pickle:" + how_p, 0) + 1
+                if how_p == "mid":
+                    if "p" in snap:
+                        # the history continues on the copy restored from the pickle taken while the bodies
+                        # were out; the `running` flags (its own and its children's) are cleared by hand
+                        f = pickle.loads(snap["p"])
+                        f.running = False
+                        f.failed = False
+                        for child in f:  # the body copies were out: still flagged running, their inputs locked
+                            child.running = False
+                        f.body_node_executor = body_exec
+                        obs.append("snap ok")
+                        obs.extend(_state_lines(case, f))
+                    else:
+                        obs.append("snap none")
+                else:
+                    if how_p == "file":
+                        f.save("pickle")
+                        g = type(f)(label=f.label, autoload="pickle")
+                        g.delete_storage("pickle")
+                        f = g
+                    else:
+                        f = pickle.loads(pickle.dumps(f))
+                    f.body_node_executor = body_exec
+                    obs.append("rl")
+                    obs.extend(_state_lines(case, f))
             runs_out.append({"res": res, "outs": struct, "children": children, "n_children": n_children,
                              "order": order, "consistent": consistent, "leftover_jobs": leftover,
                              "err": err_text, "calls": [list(c) for c in nodes_c16.CALLS[calls0:]],
@@ -927,7 +1048,10 @@ def model_input(case, impl=None):
         order = ro["order"] if ro else []
         if shortcut and ro:
             order = list(range(len(ro["calls"])))  # the for-node is not reachable: every body that was called
-        lines.append(("runq " if shortcut else "run ") + " ".join(map(str, order)))
+        how_p = _pickle_mode(case, run)
+        lines.append(("runq " if shortcut else "snaprun " if how_p == "mid" else "run ") + " ".join(map(str, order)))
+        if how_p in ("after", "file"):
+            lines.append("reload")
     return lines
 
 
